@@ -340,7 +340,9 @@ impl<'a> LocaleTranslations<'a> {
         let mut file = File::create(&*path)?;
         path.pop();
         let mut f = BufWriter::new(&mut file);
-        write!(f, "{}", self.translations_formatter())
+        write!(f, "{}", self.translations_formatter())?;
+        // flush explicitly: errors are silently dropped if the flush is left to `Drop`
+        f.flush()
     }
 }
 
